@@ -5,6 +5,7 @@ CHECK = {
     "level_text": "Held on the executions observed: tens of thousands (quick) to millions (thorough) of histories of up to 200 observations each, for both meters, with every reading compared after every observation; counters show how often each window sampled, non-zero 300 s rates, stall/backwards steps that yielded 0, wrap-arounds across 2^64 that yielded the small true rate, zero observations, refusals before start and non-zero averages. Not a proof; time only moves forwards, counter steps stay below 2^62.",
     "level_note": "Trusts the reference model lib/refkxps (written from the statement: increase since the window's previous sample divided by the window LENGTH, cascade 10->30->300, increase taken modulo 2^64), Go's runtime and float64 arithmetic to 1e-9 relative. The bitrate meter's Average() applies its x8/1000 scale only on the wall-clock path, which is not driven; the average is checked unscaled at sampleAverage(t). The `started` flag is set in-package instead of calling Start().",
     "parts": [
+        {"name": "publicapi", "pkg": "verifharness/prop/c20", "run": "^TestVerif_C20_PublicAPI$", "timeout": {"quick": 300, "thorough": 900}},
         {"name": "windows", "pkg": "kxps", "run": "^TestVerif_C20_Windows$",
          "timeout": {"quick": 600, "thorough": 3600}},
     ],
